@@ -386,7 +386,10 @@ static void gen_cases(const sx::Options& opt, std::vector<sx::Case>& cases) {
     { Spec2 s = quad("ill-angle-first-target", "ffaaa", true, false, 28); for (auto& st : s.st) { std::vector<O2> keep; for (auto& o : st.obs) if (o.to != 4 && st.from != 4) keep.push_back(o); st.obs = keep; }
       s.st.erase(std::remove_if(s.st.begin(), s.st.end(), [](const St2& t) { return t.obs.empty(); }), s.st.end()); s.st[1].obs.push_back({2, 4, 2, Q(15)}); ill.push_back(s); }   // E is only the first target of one angle
     for (auto& s : ill) { auto sp = std::make_shared<Spec2>(s); add("net2d/illposed/" + s.name, "plane networks", [sp] { case_illposed(*sp); }); } }
-  if (on("C14")) { int k = 0; for (auto& s : fixed) { if (&s != &fixed[0] && !th) continue; int nobs = 0; for (auto& st : s.st) nobs += (int)st.obs.size();
+  if (on("C14")) { int k = 0;
+    // a free network with some points constrained: the removal of the first listed observation renumbers the unknowns
+    for (int q : {0, 4}) { int alg = (k++) % 3; auto sp = std::make_shared<Spec2>(freen[2]); add("net2d/outlier/" + freen[2].name + "/" + ALGS[alg] + "/obs" + std::to_string(q), "plane networks", [sp, alg, q] { case_outlier(*sp, alg, q); }); }
+    for (auto& s : fixed) { if (&s != &fixed[0] && !th) continue; int nobs = 0; for (auto& st : s.st) nobs += (int)st.obs.size();
       for (int q = 0; q < nobs; q += (th ? 2 : 5)) { int alg = (k++) % 3; auto sp = std::make_shared<Spec2>(s); add("net2d/outlier/" + s.name + "/" + ALGS[alg] + "/obs" + std::to_string(q), "plane networks", [sp, alg, q] { case_outlier(*sp, alg, q); }); } } }
   if (on("C08")) { for (int alg = 0; alg < 3; alg++) { auto sp = std::make_shared<Spec2>(freen[0]); add(std::string("net2d/datum/quad-dd/") + ALGS[alg], "plane networks", [sp, alg] { case_datum(*sp, alg, {"ccccc", "ccaaa", "acaca", "aaccc"}); });
       auto sq = std::make_shared<Spec2>(freen[1]); add(std::string("net2d/datum/quad-d/") + ALGS[alg], "plane networks", [sq, alg] { case_datum(*sq, alg, {"ccccc", "ccaaa", "acaca"}); }); } }
